@@ -1,6 +1,7 @@
 package main
 
 import (
+	"errors"
 	"fmt"
 	"math/rand"
 	"net"
@@ -333,7 +334,7 @@ func c12Exchange(ctx *Ctx, srv *c12Server, cp **Client, lane string, cmds [][]st
 		got := 0
 		var first resp.Value
 		for {
-			v, raw, err := c.Read(12 * time.Second)
+			v, raw, err := readPatient(ctx, srv, c, 12*time.Second)
 			if err != nil {
 				if !srv.alive() {
 					ctx.Violate(Violation{Kind: "down", Lane: lane, What: "the server stopped answering PING on a new connection after: " + describe(),
@@ -376,6 +377,23 @@ func c12Exchange(ctx *Ctx, srv *c12Server, cp **Client, lane string, cmds [][]st
 		}
 	}
 	return true
+}
+
+// readPatient reads one reply. A read watchdog that fires while the server still answers on another
+// connection decides nothing on a loaded machine: the read is continued, much longer, before the reply
+// is called missing.
+func readPatient(ctx *Ctx, srv *c12Server, c *Client, first time.Duration) (resp.Value, []byte, error) {
+	v, raw, err := c.Read(first)
+	if err != nil && isTimeout(err) && srv.alive() {
+		ctx.Count("read_watchdog_extended", 1)
+		v, raw, err = c.Read(75 * time.Second)
+	}
+	return v, raw, err
+}
+
+func isTimeout(err error) bool {
+	var ne net.Error
+	return errors.As(err, &ne) && ne.Timeout()
 }
 
 var c12Payloads = []string{"", "x", "a\r\nb", "\r\n", "nul\x00byte", "$5\r\nhello\r\n", "*1\r\n", "+OK\r\n", "ünï", strings.Repeat("0123456789", 900), strings.Repeat("x0123456789", 900), strings.Repeat("abcdefg", 10000), " lead", "trail "}
@@ -472,7 +490,7 @@ func c12Pipeline(ctx *Ctx, srv *c12Server, i int) bool {
 	for k := range cmds {
 		got := 0
 		for {
-			v, raw, err := c.Read(12 * time.Second)
+			v, raw, err := readPatient(ctx, srv, c, 12*time.Second)
 			if err != nil {
 				if !srv.alive() {
 					ctx.Violate(Violation{Kind: "down", Lane: "pipeline", What: "the server stopped answering PING after a pipeline", Case: map[string]interface{}{"commands": cmds}, Key: "c12|down"})
@@ -693,7 +711,7 @@ func c12StopAndWait(ctx *Ctx, srv *c12Server, i int) bool {
 		ctx.Class("stop-and-wait|subscribe-after-commands")
 		var got []string
 		for k := 0; k < 3; k++ {
-			v, raw, err := c.Read(12 * time.Second)
+			v, raw, err := readPatient(ctx, srv, c, 12*time.Second)
 			if err != nil {
 				ctx.Violate(Violation{Kind: "framing", Lane: "stop-and-wait", What: fmt.Sprintf("pipeline ECHO | SET/GET | (P)SUBSCRIBE: reply %d: %v (unparsed %q; replies so far %v)", k, err, trunc(string(raw), 80), got),
 					Case: map[string]interface{}{"stream": string(stream)}, Key: "c12|stop-and-wait|subscribe|io"})
@@ -722,7 +740,7 @@ func c12StopAndWait(ctx *Ctx, srv *c12Server, i int) bool {
 	ctx.Eval(1)
 	ctx.Class(fmt.Sprintf("stop-and-wait|complete=%d|partial-bytes=%d", n, cut))
 	for k := 0; k < n; k++ {
-		v, raw, err := c.Read(8 * time.Second)
+		v, raw, err := readPatient(ctx, srv, c, 8*time.Second)
 		if err != nil {
 			// confirm that the reply was being withheld: it arrives once the rest of the next command is sent
 			_ = c.Send(next[cut:])
@@ -739,7 +757,7 @@ func c12StopAndWait(ctx *Ctx, srv *c12Server, i int) bool {
 		}
 	}
 	_ = c.Send(next[cut:])
-	if v, _, err := c.Read(12 * time.Second); err != nil || !strings.Contains(v.String(), id(n)) {
+	if v, _, err := readPatient(ctx, srv, c, 12*time.Second); err != nil || !strings.Contains(v.String(), id(n)) {
 		ctx.Violate(Violation{Kind: "framing", Lane: "stop-and-wait", What: fmt.Sprintf("the command completed by the second write was answered with %s (%v)", trunc(v.String(), 60), err),
 			Case: map[string]interface{}{"complete": n, "cut": cut}, Key: "c12|stop-and-wait|tail"})
 	}
